@@ -99,6 +99,22 @@ theorem dataset_quote_is_last_added (es pre post : List (Entry σ α)) (e : Entr
     (({} : Pen σ α).addAll es).quote e.date e.sym = some e :=
   quote_last _ e.date e.sym pre post e (by rw [addAll_entries, hes]; rfl) ⟨rfl, rfl⟩ hpost
 
+/-- **one symbol at a time** (how the repository's own perf fixture loads its data): when the first symbol's
+    series has pairwise distinct dates and every later entry's date occurs in it, the date list is exactly that
+    series' dates in its order — no date is listed twice, whatever comes after; with `C16` this is why a strategy
+    run still makes exactly `N` updates on such a dataset -/
+theorem dataset_loaded_symbol_by_symbol (first rest : List (Entry σ α)) (syms : List σ) (mk : List (Entry σ α) → Q')
+    (hn : (first.map (·.date)).Nodup) (hr : ∀ e ∈ rest, e.date ∈ first.map (·.date)) :
+    (Dataset.ofPen (({} : Pen σ α).addAll (first ++ rest)) syms mk).dates = first.map (·.date) :=
+  dates_symbol_by_symbol first rest hn hr
+
+/-- when every (date, symbol) pair is quoted at most once, the quote stored for a pair does not depend on the order
+    of the `add_quote` calls: date by date and symbol by symbol build the same rows -/
+theorem dataset_quotes_independent_of_loading_order (es es' : List (Entry σ α)) (hp : es.Perm es')
+    (hu : es.Pairwise (fun e f => ¬ (e.date = f.date ∧ e.sym = f.sym))) (d : Int) (s : σ) :
+    (({} : Pen σ α).addAll es).quote d s = (({} : Pen σ α).addAll es').quote d s :=
+  quote_perm es es' hp hu d s
+
 /-- with increasing dates, a later position shows a strictly later date: together with
     `clock_after_any_interleaving` no date is visited twice or out of order -/
 theorem later_position_later_date (ds : Dataset Q') (h : ds.dates.Pairwise (· < ·)) (k k' : Nat)
